@@ -40,9 +40,21 @@ GraphCheck.vos GraphCheck.vok GraphCheck.required_vos: GraphCheck.v Graph.vos Pr
 Dataflow.vo Dataflow.glob Dataflow.v.beautified Dataflow.required_vo: Dataflow.v Graph.vo Sched.vo
 Dataflow.vio: Dataflow.v Graph.vio Sched.vio
 Dataflow.vos Dataflow.vok Dataflow.required_vos: Dataflow.v Graph.vos Sched.vos
+DataflowFacts.vo DataflowFacts.glob DataflowFacts.v.beautified DataflowFacts.required_vo: DataflowFacts.v Graph.vo GraphFacts.vo Sched.vo SchedInv.vo SchedGhost.vo Dataflow.vo
+DataflowFacts.vio: DataflowFacts.v Graph.vio GraphFacts.vio Sched.vio SchedInv.vio SchedGhost.vio Dataflow.vio
+DataflowFacts.vos DataflowFacts.vok DataflowFacts.required_vos: DataflowFacts.v Graph.vos GraphFacts.vos Sched.vos SchedInv.vos SchedGhost.vos Dataflow.vos
+DataflowFast.vo DataflowFast.glob DataflowFast.v.beautified DataflowFast.required_vo: DataflowFast.v Graph.vo Sched.vo Dataflow.vo
+DataflowFast.vio: DataflowFast.v Graph.vio Sched.vio Dataflow.vio
+DataflowFast.vos DataflowFast.vok DataflowFast.required_vos: DataflowFast.v Graph.vos Sched.vos Dataflow.vos
+SelectSpec.vo SelectSpec.glob SelectSpec.v.beautified SelectSpec.required_vo: SelectSpec.v Graph.vo GraphFacts.vo Closure.vo Select.vo SelectFacts.vo Sched.vo SchedInv.vo Dataflow.vo DataflowFacts.vo
+SelectSpec.vio: SelectSpec.v Graph.vio GraphFacts.vio Closure.vio Select.vio SelectFacts.vio Sched.vio SchedInv.vio Dataflow.vio DataflowFacts.vio
+SelectSpec.vos SelectSpec.vok SelectSpec.required_vos: SelectSpec.v Graph.vos GraphFacts.vos Closure.vos Select.vos SelectFacts.vos Sched.vos SchedInv.vos Dataflow.vos DataflowFacts.vos
 Terms.vo Terms.glob Terms.v.beautified Terms.required_vo: Terms.v Graph.vo Sched.vo Dataflow.vo
 Terms.vio: Terms.v Graph.vio Sched.vio Dataflow.vio
 Terms.vos Terms.vok Terms.required_vos: Terms.v Graph.vos Sched.vos Dataflow.vos
+Properties/C01.vo Properties/C01.glob Properties/C01.v.beautified Properties/C01.required_vo: Properties/C01.v Graph.vo Sched.vo SchedInv.vo Dataflow.vo DataflowFacts.vo
+Properties/C01.vio: Properties/C01.v Graph.vio Sched.vio SchedInv.vio Dataflow.vio DataflowFacts.vio
+Properties/C01.vos Properties/C01.vok Properties/C01.required_vos: Properties/C01.v Graph.vos Sched.vos SchedInv.vos Dataflow.vos DataflowFacts.vos
 Properties/C02.vo Properties/C02.glob Properties/C02.v.beautified Properties/C02.required_vo: Properties/C02.v Graph.vo Sched.vo SchedInv.vo SchedGhost.vo
 Properties/C02.vio: Properties/C02.v Graph.vio Sched.vio SchedInv.vio SchedGhost.vio
 Properties/C02.vos Properties/C02.vok Properties/C02.required_vos: Properties/C02.v Graph.vos Sched.vos SchedInv.vos SchedGhost.vos
@@ -58,12 +70,24 @@ Properties/C05.vos Properties/C05.vok Properties/C05.required_vos: Properties/C0
 Properties/C06.vo Properties/C06.glob Properties/C06.v.beautified Properties/C06.required_vo: Properties/C06.v Graph.vo Sched.vo SchedInv.vo SchedPrio.vo
 Properties/C06.vio: Properties/C06.v Graph.vio Sched.vio SchedInv.vio SchedPrio.vio
 Properties/C06.vos Properties/C06.vok Properties/C06.required_vos: Properties/C06.v Graph.vos Sched.vos SchedInv.vos SchedPrio.vos
+Properties/C07.vo Properties/C07.glob Properties/C07.v.beautified Properties/C07.required_vo: Properties/C07.v Graph.vo Closure.vo Priority.vo PriorityFacts.vo Sched.vo SchedInv.vo SchedPrio.vo
+Properties/C07.vio: Properties/C07.v Graph.vio Closure.vio Priority.vio PriorityFacts.vio Sched.vio SchedInv.vio SchedPrio.vio
+Properties/C07.vos Properties/C07.vok Properties/C07.required_vos: Properties/C07.v Graph.vos Closure.vos Priority.vos PriorityFacts.vos Sched.vos SchedInv.vos SchedPrio.vos
 Properties/C08.vo Properties/C08.glob Properties/C08.v.beautified Properties/C08.required_vo: Properties/C08.v Graph.vo Sched.vo SchedInv.vo SchedPrio.vo
 Properties/C08.vio: Properties/C08.v Graph.vio Sched.vio SchedInv.vio SchedPrio.vio
 Properties/C08.vos Properties/C08.vok Properties/C08.required_vos: Properties/C08.v Graph.vos Sched.vos SchedInv.vos SchedPrio.vos
 Properties/C09.vo Properties/C09.glob Properties/C09.v.beautified Properties/C09.required_vo: Properties/C09.v Graph.vo Sched.vo SchedInv.vo SchedGhost.vo SchedProgress.vo
 Properties/C09.vio: Properties/C09.v Graph.vio Sched.vio SchedInv.vio SchedGhost.vio SchedProgress.vio
 Properties/C09.vos Properties/C09.vok Properties/C09.required_vos: Properties/C09.v Graph.vos Sched.vos SchedInv.vos SchedGhost.vos SchedProgress.vos
+Properties/C10.vo Properties/C10.glob Properties/C10.v.beautified Properties/C10.required_vo: Properties/C10.v Graph.vo Sched.vo SchedInv.vo SchedGhost.vo Dataflow.vo DataflowFacts.vo
+Properties/C10.vio: Properties/C10.v Graph.vio Sched.vio SchedInv.vio SchedGhost.vio Dataflow.vio DataflowFacts.vio
+Properties/C10.vos Properties/C10.vok Properties/C10.required_vos: Properties/C10.v Graph.vos Sched.vos SchedInv.vos SchedGhost.vos Dataflow.vos DataflowFacts.vos
+Properties/C12.vo Properties/C12.glob Properties/C12.v.beautified Properties/C12.required_vo: Properties/C12.v Graph.vo Closure.vo Select.vo SelectFacts.vo SelectSpec.vo
+Properties/C12.vio: Properties/C12.v Graph.vio Closure.vio Select.vio SelectFacts.vio SelectSpec.vio
+Properties/C12.vos Properties/C12.vok Properties/C12.required_vos: Properties/C12.v Graph.vos Closure.vos Select.vos SelectFacts.vos SelectSpec.vos
+Properties/C13.vo Properties/C13.glob Properties/C13.v.beautified Properties/C13.required_vo: Properties/C13.v Graph.vo Select.vo SelectFacts.vo
+Properties/C13.vio: Properties/C13.v Graph.vio Select.vio SelectFacts.vio
+Properties/C13.vos Properties/C13.vok Properties/C13.required_vos: Properties/C13.v Graph.vos Select.vos SelectFacts.vos
 Properties/C14.vo Properties/C14.glob Properties/C14.v.beautified Properties/C14.required_vo: Properties/C14.v Graph.vo Sched.vo SchedInv.vo SchedGhost.vo
 Properties/C14.vio: Properties/C14.v Graph.vio Sched.vio SchedInv.vio SchedGhost.vio
 Properties/C14.vos Properties/C14.vok Properties/C14.required_vos: Properties/C14.v Graph.vos Sched.vos SchedInv.vos SchedGhost.vos
